@@ -1,0 +1,18 @@
+//go:build verif
+
+// Verification hooks (build tag "verif") for the property-based checks kept outside this
+// repository. Nothing here changes behaviour.
+
+package exporter
+
+// VerifSetSeqNumber sets the sequence counter, so that sessions crossing the 2^32 wrap can
+// be exercised without sending four billion records. Call it before any concurrent use.
+func (ep *ExportingProcess) VerifSetSeqNumber(n uint32) {
+	ep.seqNumber = n
+}
+
+// VerifSendRefreshedTemplates runs the body of one UDP template-refresh tick at a moment of
+// the caller's choosing.
+func (ep *ExportingProcess) VerifSendRefreshedTemplates() error {
+	return ep.sendRefreshedTemplates()
+}
